@@ -175,6 +175,7 @@ class Executor:
         self.notes = []
         self.env = {}         # harness / environment model state for this path
         self._divcache = {}
+        self.obligations = []
         self._divkeep = []
         self.depth = 0
 
@@ -907,7 +908,7 @@ class Executor:
                 return f.py(self, *args)
             return self.call_path(f.path, args, None)
         if isinstance(f, Agg) and f.kind == 'closure':
-            return self.call_closure(f, args, by_ref=False)
+            return self.call_closure(f, args)
         if isinstance(f, PyObj):
             return f.trait_call(self, 'Fn', 'call', [f, Agg('tuple', None, list(args))])
         raise Unsupported('call through %r' % (f,))
